@@ -15,9 +15,9 @@ RULE = ("48 policy combinations x int/str/float labels x n_jobs in {1,3} x histo
         "remove_arm (incl. before the first fit and re-adding a removed label), fit, partial_fit, warm_start with predict / "
         "predict_expectations on m in {none,1,2,3,5,8} rows; non-trivial = history with >=1 add and >=1 remove each followed "
         "by a query; distinct = (combo, labels, n_jobs, op skeleton)")
-BUDGET = {"quick": {"cases": 48 * 6, "shards": 8}, "thorough": {"cases": 48 * 200, "shards": 16, "wall_s": 2400}}
+BUDGET = {"quick": {"cases": 48 * 6, "shards": 8}, "thorough": {"cases": 48 * 100, "shards": 16, "wall_s": 2700}}
 MIN = {"quick": {"evaluations": 1000, "nontrivial": 60, "counters": {"c08_predict": 400, "c08_expectations": 400}},
-       "thorough": {"evaluations": 30000, "nontrivial": 2000, "counters": {"c08_predict": 10000, "c08_expectations": 10000}}}
+       "thorough": {"evaluations": 15000, "nontrivial": 1000, "counters": {"c08_predict": 5000, "c08_expectations": 5000}}}
 ASSUMPTIONS = ["homogeneous arm labels (numpy coerces mixed lists before the library sees them)",
                "no_nhood_prob_of_arm only with a fixed arm set"]
 
@@ -29,7 +29,7 @@ def run_case(rs, ctx):
     l, p = gen.ALL_COMBOS[ctx.index % 48]
     labels = ["int", "str", "float"][(ctx.index // 48) % 3]
     n_jobs = 3 if (ctx.index // 144) % 2 else 1
-    backend = "threading" if n_jobs > 1 and (ctx.tier == "quick" or rs.integers(4)) else None
+    backend = "threading" if n_jobs > 1 and (ctx.tier == "quick" or rs.integers(16)) else None  # None -> loky processes (slow)
     cfg = gen.gen_cfg(rs, l, p, labels=labels, n_arms=int(rs.integers(2, 5)), n_jobs=n_jobs, backend=backend)
     nf = int(gen.pick(rs, [1, 2, 3]))
     sh = gen.Shadow(cfg, nf)
